@@ -126,6 +126,7 @@ func checkListing(e *fw.Env, name string, pg pager, truth []string, hist any) {
 		limits = append(limits, uint64(n-1), uint64(n/2), uint64(1+e.R.Intn(n)))
 	}
 	var fwdAll []string
+	haveFwd := false
 	for _, lim := range limits {
 		if lim == 0 {
 			continue
@@ -154,7 +155,7 @@ func checkListing(e *fw.Env, name string, pg pager, truth []string, hist any) {
 				return
 			}
 			if !rev && lim == 1000 {
-				fwdAll = got
+				fwdAll, haveFwd = got, true
 			}
 			if rev && lim == 1000 && fwdAll != nil && !isReversed(fwdAll, got) {
 				viol("reverse-order-not-mirror", "reverse listing is not the mirror image of the forward listing")
@@ -177,7 +178,7 @@ func checkListing(e *fw.Env, name string, pg pager, truth []string, hist any) {
 	// offset windows: with the forward listing as the order, every (offset, limit) window and its
 	// total must be the corresponding slice of the truth - also beyond the end and for filters
 	// that match nothing
-	if fwdAll != nil {
+	if haveFwd {
 		for _, off := range []int{0, 1, 2, n - 1, n, n + 1, n + 3} {
 			if off < 0 {
 				continue
